@@ -160,16 +160,24 @@ impl<'a> PreparedAccessor<'a> {
         }
         let mut values: Vec<i64> = Vec::with_capacity(end - start);
         let mut valid: Vec<bool> = Vec::with_capacity(end - start);
+        let mut any_valid = false;
         for i in start..end {
             if let Some(v) = column.get_i64_at(i) {
                 values.push(v);
                 valid.push(true);
+                any_valid = true;
             } else {
                 values.push(0);
                 valid.push(false);
             }
         }
-        Some((values, valid))
+        // Like the u64 / f64 variants: a column with no i64 view (e.g. a float column) is
+        // "not this kind", not "all rows invalid" - callers then try the next numeric kind.
+        if any_valid {
+            Some((values, valid))
+        } else {
+            None
+        }
     }
 
     /// Builds a dense u64 buffer and a parallel validity mask for a field.
